@@ -50,7 +50,7 @@ impl CssBuf {
     }
 
     pub fn do_indent(&mut self) {
-        self.add_str(self.format.get_indent(self.indent));
+        self.add_str(&self.format.get_indent(self.indent));
     }
     pub(crate) fn do_indent_no_nl(&mut self) {
         let stuff = self.format.get_indent(self.indent);
